@@ -62,10 +62,29 @@ var sub1Layout = []tField{{ID: 1, Ty: "I64"}, {ID: 2, Ty: "BOOL"}}
 
 // ---------------------------------------------------------------- value tables
 
-var tI8 = []int8{1, -1, 127, -128, 64}
+var tI8 = []int8{1, -1, 127, -128, 64, 63, -64, -65}
 var tI16 = []int16{1, -1, 32767, -32768, 300, -64}
 var tI32 = []int32{1, -1, math.MaxInt32, math.MinInt32, 300, 1 << 20}
 var tI64 = []int64{1, -1, math.MaxInt64, math.MinInt64, 1 << 40, -129}
+
+// every value at which the zig-zag varint of the compact protocol changes length: 2^(7k-1)-1, 2^(7k-1),
+// -2^(7k-1), -2^(7k-1)-1 (single-field vectors are run with every entry of the tables)
+func init() {
+	for k := 1; k <= 9; k++ {
+		p := int64(1) << (7*k - 1)
+		for _, v := range []int64{p - 1, p, -p, -p - 1} {
+			if v >= math.MinInt16 && v <= math.MaxInt16 {
+				tI16 = append(tI16, int16(v))
+			}
+			if v >= math.MinInt32 && v <= math.MaxInt32 {
+				tI32 = append(tI32, int32(v))
+			}
+			tI64 = append(tI64, v)
+		}
+	}
+}
+
+const tMaxTable = 6 + 4*9
 var tDbl = []float64{1.5, -2, math.Inf(1), math.SmallestNonzeroFloat64, 1e300}
 var tStr = []string{"a", "héllo", strings.Repeat("x", 200), "\x00\xff", "k"}
 
